@@ -138,6 +138,16 @@ var builtins = []any{&codec.Crc16ChecksumService{}, &codec.Crc32ChecksumService{
 func setInitial(kind int) map[string]string {
 	codec.Clear()
 	m := map[string]string{}
+	if kind >= 100 {
+		// a non-initial start state: {A} registered and then kind-100 sequential look-ups already served
+		// (counters, caches or snapshots that only switch on after some traffic are in their "warm" state)
+		codec.Registry(svc("A", 9))
+		m["A"] = "9"
+		for i := 0; i < kind-100; i++ {
+			codec.Get("A")
+		}
+		return m
+	}
 	switch kind {
 	case 1:
 		codec.Registry(svc("A", 9))
@@ -298,6 +308,16 @@ func c19Scenarios(thorough bool) []*scenario {
 				for k := j; k < len(regAlphabet); k++ {
 					out = append(out, registryScenario(init, [][]regOp{{regAlphabet[i]}, {regAlphabet[j]}, {regAlphabet[k]}}))
 				}
+			}
+		}
+	}
+	// warm start states: 2 threads x 1 op each, after W sequential look-ups, W around the powers of two up to 256
+	for _, w := range []int{1, 2, 3, 7, 8, 15, 16, 31, 32, 63, 64, 127, 128, 255, 256} {
+		for i := 0; i < len(regAlphabet); i++ {
+			for j := i; j < len(regAlphabet); j++ {
+				sc := registryScenario(100+w, [][]regOp{{regAlphabet[i]}, {regAlphabet[j]}})
+				sc.Name = fmt.Sprintf("warm%d ", w) + sc.Name
+				out = append(out, sc)
 			}
 		}
 	}
